@@ -7,11 +7,11 @@ from ..protos import http
 
 PROP = "C13"
 RULE = ("requests generated from the positive grammar (9 methods, '/'-targets with arbitrary bytes incl. non-UTF-8 and "
-        "controls other than SP/CR/LF, HTTP/x.y versions, 0-4 header lines with token or arbitrary-byte names, CRLF / LF / "
+        "controls other than SP/CR/LF, lengths up to 3500 bytes, HTTP/x.y versions, 0-4 header lines with token or arbitrary-byte names, CRLF / LF / "
         "mixed line ends) and every single-fault corruption of them (unknown, lower-case, truncated method; missing SP; "
         "missing or misspelt HTTP/; non-digit version; junk after the version; header line without colon; missing final "
         "empty line; every kind of proper prefix), each sent over UDP and inside a validated TCP flow (one segment), random "
-        "ports, both IP versions, log level warn. Positive: reply must start 'HTTP/1.1 401', carry WWW-Authenticate and a "
+        "ports, both IP versions, random logger and log level (off / warn / info / trace). Positive: reply must start 'HTTP/1.1 401', carry WWW-Authenticate and a "
         "Content-Length equal to the bytes after the first empty line. Negative: no reply over UDP, a bare ACK over TCP. "
         "Non-trivial = every case; distinct = distinct (class, method, request bytes hash, transport).")
 ASSUME = ["a third of the positive requests is additionally delivered over TCP in 2-5 segments (exhaustive segmentation is C11's subject)",
@@ -24,11 +24,15 @@ def shard(ctx, budget_s):
     deadline = time.time() + budget_s
     n = 0
     while time.time() < deadline or n == 0:
-        cfg = gen.rnd_config(rng, deny=False, logger=rng.choice("nc"), level=2)
+        cfg = gen.rnd_config(rng, deny=False, logger=rng.choice("ncl"), level=rng.choice([0, 2, 2, 3, 5]))
         ctx.case(cfg)
         lab = AppLab(ctx, cfg)
         for _ in range(40):
             p = http.gen_parts(rng)
+            if rng.random() < 0.08:
+                # long request-targets (up to what a 4096-byte frame can carry), arbitrary bytes
+                n = rng.choice([200, 254, 255, 256, 257, 300, 1000, 2047, 2048, 2049, 2100, 3000, rng.randrange(200, 3500)])
+                p["target"] = b"/" + http._bytes_excluding(rng, n - 1, (0x20, 0x0D, 0x0A)) if rng.random() < 0.7 else b"/" + b"a" * (n - 2) + bytes([rng.choice([0xE9, 0xFF, 0xC3, 0x61])])
             req = http.build(p)
             for tr in ("udp", "tcp"):
                 if lab.identified(req, tr) != sigref.HTTP:
